@@ -469,6 +469,9 @@ class HistogramBase(abc.ABC):
     @property
     def total(self) -> float:
         """Total number (sum of weights) of entries excluding underflow and overflow."""
+        if self._frequencies.dtype.kind == "f":
+            # float16 / float32 contents: do not accumulate (and overflow) in the narrow type
+            return self._frequencies.sum(dtype=np.float64).item()
         return self._frequencies.sum().item()
 
     @property
